@@ -92,91 +92,6 @@ theorem copyEachWith_sep {cs : List ClassDesc} (n : Nat) :
         have := Bb.reach hl2 r2
         omega
 
-/-- The new `__dict__` built by `VectorContainer.copy` (containers and models): entries under different keys are
-    separate. -/
-theorem copyInstWith_sep {cs : List ClassDesc} {h0 : Heap} (W : WorldOK2 cs h0) (n : Nat) {cd : ClassDesc} {ci : Nat}
-    (hcd : cs[ci]? = some cd) {l : Nat} {o : Obj} (ho : h0[l]? = some o) (hk : o.kind = .inst ci)
-    (hnl : cd.base ≠ .linker) {h h1 : Heap} {ss : List (String × Val)} (e : Ext h0 h) (B : Blk h0.length h)
-    (hc : copyInstWith (deepcopy cs n) cd h o = some (h1, ss)) :
-    ∀ k1 v1 k2 v2, (k1, v1) ∈ ss → (k2, v2) ∈ ss → k1 ≠ k2 → SepVals h1 v1 v2 := by
-  have ok := W.classes ci cd hcd
-  have O := oldSlots_of_wf W.wf ho
-  have ctor := W.ctor l o ci cd ho hk hcd
-  have S := deepcopy_spec W.toWorldOK n
-  unfold copyInstWith at hc
-  simp only [hnl, if_false] at hc
-  have Osp := lookup_getD_old O "span"
-  cases hd : deepcopy cs n h [] ((o.slots.lookup "span").getD (.imm .none)) with
-  | none => simp [hd] at hc
-  | some r1 =>
-    obtain ⟨ha, ma, sp⟩ := r1
-    simp only [hd] at hc
-    obtain ⟨ea, Ba, _, Nsp⟩ := S h [] _ ha ma sp e B (MemoOK.nil _ _) Osp hd
-    have lena := (e.trans ea).len
-    have C := construct_ok (b := h0.length) W.wf (e.trans ea) ok Ba (by omega) sp (.imm .none) Nsp (NewV.imm _ _ _)
-    have CK := construct_keys cd ha sp (.imm .none)
-    generalize construct cd ha sp (.imm .none) = r3 at hc C CK
-    obtain ⟨h3, init⟩ := r3
-    simp only at hc CK
-    cases h4c : copyEachWith (deepcopy cs n) h3 o.slots with
-    | none => simp [h4c] at hc
-    | some r4 =>
-      obtain ⟨h4, ss4⟩ := r4
-      simp only [h4c] at hc
-      cases hc
-      have e3 : Ext h0 h3 := (e.trans ea).trans C.ext
-      obtain ⟨_, _, _, K4⟩ := copyEachWith_spec S _ h3 h1 ss4 e3 C.blk O h4c
-      have P := copyEachWith_sep n o.slots h0 h3 h1 ss4 W.toWorldOK e3 C.blk O h4c
-      have from4 : ∀ k v, (k, v) ∈ slotUpdate init ss4 → (k, v) ∈ ss4 := by
-        intro k v hm
-        rcases mem_slotUpdate ss4 init k v hm with h1' | ⟨h1', h2'⟩
-        · exact h1'
-        · exfalso
-          apply h2'
-          rw [K4]
-          apply ctor k
-          rw [← modelNames_ext W.wf (e.trans ea) ok, ← CK]
-          exact List.mem_map.mpr ⟨(k, v), h1', rfl⟩
-      intro k1 v1 k2 v2 m1 m2 hne
-      have := pairwise_mem (R := fun p q : String × Val => SepVals h1 p.2 q.2) (fun a b r => r.symm) P
-        (k1, v1) (k2, v2) (from4 k1 v1 m1) (from4 k2 v2 m2) (by intro heq; exact hne (congrArg Prod.fst heq))
-      exact this
-
-/-- **The copy of a container / model has separate entries.** -/
-theorem copyRoot_entries_separate {cs : List ClassDesc} {h0 : Heap} (W : WorldOK2 cs h0) {a c : Nat} {h1 : Heap}
-    {o : Obj} {ci : Nat} {cd : ClassDesc} (ho : h0[a]? = some o) (hk : o.kind = .inst ci) (hcd : cs[ci]? = some cd)
-    (hnl : cd.base ≠ .linker) (hc : copyRoot cs h0 a = some (h1, c)) : EntriesSeparate h1 c := by
-  have ha := getElem?_lt ho
-  unfold copyRoot at hc
-  cases hd : deepcopy cs (h0.length + 1) h0 [] (.ref a) with
-  | none => simp [hd] at hc
-  | some r =>
-    obtain ⟨hh, mm, v⟩ := r
-    cases v with
-    | imm i => simp [hd] at hc
-    | ref c' =>
-      simp [hd] at hc
-      obtain ⟨rfl, rfl⟩ := hc
-      simp only [deepcopy, List.lookup, ho, hk, hcd] at hd
-      cases hci : copyInstWith (deepcopy cs h0.length) cd h0 o with
-      | none => simp [hci] at hd
-      | some r2 =>
-        obtain ⟨hx, ss⟩ := r2
-        simp [hci] at hd
-        obtain ⟨rfl, _, rfl⟩ := hd
-        have sep := copyInstWith_sep W h0.length hcd ho hk hnl (Ext.refl h0) (blk_self h0) hci
-        obtain ⟨ex, Bx, Nx⟩ := copyInstWith_spec W.toWorldOK (deepcopy_spec W.toWorldOK h0.length) hcd ho hk
-          (Ext.refl h0) (blk_self h0) hci
-        have wfx : WF hx := wf_of_blk W.wf ex Bx
-        intro o' ho' k1 v1 k2 v2 m1 m2 hne x l1 l2 e1 e2 r1 r2
-        rw [getElem?_append_self] at ho'
-        cases ho'
-        subst e1; subst e2
-        have b1 := (Nx k1 _ m1 l1 rfl).2
-        have b2 := (Nx k2 _ m2 l2 rfl).2
-        exact sep k1 _ k2 _ m1 m2 hne x l1 l2 rfl rfl ((reach_ext_iff wfx (Ext.append _ _) b1 x).mp r1)
-          ((reach_ext_iff wfx (Ext.append _ _) b2 x).mp r2)
-
 /-! ### `endogenous` and `check` of a fresh instance are two different new lists -/
 
 theorem us_ne_endogenous (x : String) : "_" ++ x ≠ "endogenous" := by
